@@ -16,6 +16,13 @@ import (
 	qrdecoder "github.com/makiuchi-d/gozxing/qrcode/decoder"
 )
 
+func errClassOf(err error) string {
+	if err == nil {
+		return "some text"
+	}
+	return fmt.Sprintf("%T", err)
+}
+
 type histCase struct {
 	Kind  string
 	Names []string
@@ -29,6 +36,32 @@ func (s *symbol) damagedFull() *gozxing.BitMatrix {
 			p := b[i]
 			for k := 0; k < 8; k++ {
 				if 0xA5&(0x80>>uint(k)) != 0 {
+					rc := s.mods[p][k]
+					bm.Flip(rc[1], rc[0])
+				}
+			}
+		}
+	}
+	return bm
+}
+
+// damagedOver: t+2 codewords replaced in every block - beyond the promise; the outcome of that
+// call is not judged (error or any text), only that the decoder object stays usable.
+func (s *symbol) damagedOver(kind int) *gozxing.BitMatrix {
+	bm := s.fresh()
+	if kind == 1 { // every module inverted: function patterns, format information and data are all wrong
+		for y := 0; y < bm.GetHeight(); y++ {
+			for x := 0; x < bm.GetWidth(); x++ {
+				bm.Flip(x, y)
+			}
+		}
+		return bm
+	}
+	for _, b := range s.blocks {
+		for i := 0; i < s.t()+2 && i < len(b); i++ {
+			p := b[len(b)-1-i]
+			for k := 0; k < 8; k++ {
+				if (0x3C+17*i)&(0x80>>uint(k)) != 0 {
 					rc := s.mods[p][k]
 					bm.Flip(rc[1], rc[0])
 				}
@@ -70,12 +103,15 @@ func runDecoderHistories() {
 			}
 		}
 	}
-	chk.Range(fmt.Sprintf("decoder-object histories: ONE decoder object decodes every ordered triple of %d QR / %d Data Matrix symbols with different error-correction sizes, each damaged with t codewords in every block (and, as a second pass, the first of the three undamaged): every text exact", len(qs), len(ds)), len(jobs),
+	chk.Range(fmt.Sprintf("decoder-object histories: ONE decoder object decodes every ordered triple of %d QR / %d Data Matrix symbols with different error-correction sizes, each damaged with t codewords in every block (and, as further passes, the first of the three undamaged, and the first / the second damaged BEYOND capacity - t+2 codewords per block, or every module inverted - whose own outcome is not judged): every other text exact", len(qs), len(ds)), len(jobs),
 		func(i int) string { return fmt.Sprint(jobs[i]) },
 		func(l *mc.Local, i int) {
 			j := jobs[i]
 			f := fams[j.f]
-			for pass := 0; pass < 2; pass++ {
+			// pass 0: all damaged within capacity; 1: first one clean; 2..5: the first / the second symbol
+			// is damaged BEYOND capacity (t+2 codewords per block, or every module inverted): that
+			// call may fail in any way short of a panic, the following ones must still decode
+			for pass := 0; pass < 6; pass++ {
 				var qd *qrdecoder.Decoder
 				var dd *dmdecoder.Decoder
 				if f.kind == "qr" {
@@ -90,6 +126,10 @@ func runDecoderHistories() {
 					bm := s.damagedFull()
 					if pass == 1 && ci == 0 {
 						bm = s.fresh()
+					}
+					over := pass >= 2 && ci == (pass-2)/2
+					if over {
+						bm = s.damagedOver(pass % 2)
 					}
 					var res *common.DecoderResult
 					var err error
@@ -107,6 +147,9 @@ func runDecoderHistories() {
 					case msg != "":
 						chk.Violation("C05/"+f.kind+"/decoder-history/panic/"+site, fmt.Sprintf("one %s decoder object, symbols %v: panic %s", f.kind, names, msg), hc)
 						return
+					case over:
+						names[len(names)-1] += " (damaged beyond capacity)"
+						l.Distinct("outcomes", fmt.Sprint("over-damaged call: ", errClassOf(err)))
 					case err != nil || res == nil:
 						chk.Violation("C05/"+f.kind+"/decoder-history", fmt.Sprintf("one %s decoder object, after %v: symbol %d (t damaged codewords in every block) gives error %v; a fresh decoder object restores it", f.kind, names[:ci], ci+1, err), hc)
 						return
